@@ -90,6 +90,8 @@ class Walk:
             self.offer_illegal(legal)
             if self.deep_legal:
                 self.offer_legal_on_copy(legal)
+        if 'C01' not in self.props and not fin:
+            self.offer_rejected(legal)
         if fin and 'C02' in self.props:
             self.offer_after_end()
 
@@ -125,6 +127,26 @@ class Walk:
                   {'changed': [k for k in before if before[k] != after[k]]})
             if self.stats is not None:
                 self.stats.evaluated()
+
+    def offer_rejected(self, legal):
+        """C02/C03 speak about the calls that were MADE: a few calls the model deems illegal (X/XX when inadmissible and
+        three insufficient bids picked by a hash of the prefix) are offered to the live object in between and must not
+        count - whether they are reported as ILLEGAL is C01's business; here only what follows is compared."""
+        illegal = [c for c in range(38) if c not in legal]
+        if not illegal:
+            return
+        k = h64([self.dealer, self.calls, 'rej'])
+        pick = {c for c in illegal if c >= 35}
+        bids = [c for c in illegal if c < 35]
+        if bids:
+            pick.update({bids[k % len(bids)], bids[(k >> 8) % len(bids)], bids[-1]})
+        for c in sorted(pick):
+            try:
+                self.bp.take_bid(be.BID[c])
+            except Exception:  # noqa
+                pass
+        if self.stats is not None:
+            self.stats.cls('prefixes with rejected calls offered in between')
 
     def offer_legal_on_copy(self, legal):
         """Legal calls are offered to deep copies (the live object takes only the walk's call)."""
